@@ -33,7 +33,7 @@ func drawBoolCase(t *rapid.T, f Family) *C01Case {
 	}
 	c.CT = rapid.SampledFrom(allClipTypes).Draw(t, "ct")
 	c.FR = rapid.SampledFrom(allFillRules).Draw(t, "fr")
-	c.Entry = rapid.IntRange(0, 2).Draw(t, "entry")
+	c.Entry = rapid.IntRange(0, 3).Draw(t, "entry")
 	nx := rapid.IntRange(0, 6).Draw(t, "nExtra")
 	for i := 0; i < nx; i++ {
 		c.Extra = append(c.Extra, P{X: rapid.Int64Range(-f.R, f.R).Draw(t, "ex"), Y: rapid.Int64Range(-f.R, f.R).Draw(t, "ey")})
@@ -43,7 +43,7 @@ func drawBoolCase(t *rapid.T, f Family) *C01Case {
 
 func judgeC01(c *C01Case, cx *Ctx) *Violation {
 	sol, evs := runBoolean(c.Entry, c.CT, c.FR, c.Subj, c.Clip)
-	if c.Entry != 0 {
+	if c.Entry != 0 && c.Entry != 3 { // (a reused engine may order its paths differently, see C12)
 		ref := c2.BooleanOpPaths64(c.CT, c.Subj, c.Clip, c.FR)
 		if !kit.PathsEqual(ref, sol) {
 			return violf("entry point %d returned %v but BooleanOpPaths64 returned %v", c.Entry, sol, ref)
@@ -77,6 +77,8 @@ func entryLabel(e int) string {
 		return "entry:wrapper"
 	case 2:
 		return "entry:engine-split-addpaths"
+	case 3:
+		return "entry:engine-reused"
 	}
 	return "entry:BooleanOpPaths64"
 }
